@@ -137,10 +137,8 @@ def _cat() -> List[Edit]:
     ]
     # ------------------------------------------------------------------ C11
     c += [
-        E("C11", "prev-line-guard-removed", "node_visitor.py", "prev_line = lines[lineno - 2].strip() if lineno >= 2 else \"\"", "prev_line = lines[lineno - 2].strip()", "BREAK", "lines[lineno-2]"),
         E("C11", "enabled-check-first-again", "node_visitor.py", "        is_disabled = error_code is not None and not self.is_enabled(error_code)\n", "        is_disabled = error_code is not None and not self.is_enabled(error_code)\n        if is_disabled:\n            return None\n", "BREAK", "accounting-not-gated"),
         E("C11", "disabled-still-emitted", "node_visitor.py", "        if is_disabled:\n            return None\n\n        self.had_failure = True", "        self.had_failure = True", "BREAK", "gate-dominates"),
-        E("C11", "wrong-index-marked-used", "node_visitor.py", "                self.used_ignores.add(lineno - 2)\n                return", "                self.used_ignores.add(lineno - 1)\n                return", "BREAK", "ignore-return::lines[lineno - 2]"),
         E("C11", "bare-form-matches-other-code", "node_visitor.py", "re.search(f\"{re.escape(ignore_comment)}(?!\\\\[)\", this_line)", "re.search(f\"{re.escape(ignore_comment)}\", this_line)", "BREAK", "lines[lineno - 1]::bare-form"),
         E("C11", "new-enabled-guard", "name_check_visitor.py", "    def visit_Break(self, node: ast.Break) -> None:\n", "    def visit_Break(self, node: ast.Break) -> None:\n        if not self.options.is_error_code_enabled(ErrorCode.bad_global):\n            return\n", "BREAK", "enabled-read::bad_global"),
     ]
@@ -180,7 +178,6 @@ def _cat() -> List[Edit]:
         E("C16", "delete-ascending", "node_visitor.py", "lines_to_remove = sorted(lines_to_remove, reverse=True)", "lines_to_remove = sorted(lines_to_remove)", "BREAK", "model::splice"),
         E("C16", "splice-before-first", "node_visitor.py", "                max_line = max(lines_to_remove)", "                max_line = min(lines_to_remove)", "BREAK", "model::splice"),
         E("C16", "apply-all-changes", "node_visitor.py", "        if changes:\n            change = changes[0]\n", "        for change in changes:\n", "BREAK", "first-change-only"),
-        E("C16", "bare-ignore-inserted", "node_visitor.py", "                if error_code is not None:\n                    ignore = f\"{ignore_comment}[{error_code.name}]\"\n                else:\n                    ignore = ignore_comment", "                ignore = ignore_comment", "BREAK", "code-specific"),
     ]
     # ------------------------------------------------------------------ C17
     c += [
@@ -227,9 +224,6 @@ def _cat() -> List[Edit]:
         E("C16", "remove-chained-assignment", "name_check_visitor.py", "                    if len(statement.targets) == 1 and not isinstance(\n                        statement.targets[0], (ast.List, ast.Tuple)\n                    ):", "                    if not any(\n                        isinstance(target, (ast.List, ast.Tuple))\n                        for target in statement.targets\n                    ):", "BREAK", "single-target"),
         E("C16", "remove-pattern-target", "name_check_visitor.py", "                    if len(statement.targets) == 1 and not isinstance(\n                        statement.targets[0], (ast.List, ast.Tuple)\n                    ):", "                    if len(statement.targets) == 1:", "BREAK", "target-is-not-a-pattern"),
         E("C16", "keep-name-target-form", "name_check_visitor.py", "                    if len(statement.targets) == 1 and not isinstance(\n                        statement.targets[0], (ast.List, ast.Tuple)\n                    ):", "                    if len(statement.targets) == 1 and isinstance(\n                        statement.targets[0], ast.Name\n                    ):", "KEEP"),
-        E("C16", "prev-line-substring", "node_visitor.py", "                prev_line == ignore_comment\n                or error_code is not None\n                and prev_line == f\"{ignore_comment}[{error_code.name}]\"", "                ignore_comment in prev_line\n                or error_code is not None\n                and prev_line == f\"{ignore_comment}[{error_code.name}]\"", "BREAK", "ignore-arm::offset=-1"),
-        E("C16", "prev-line-not-stripped-is-still-whole-line", "node_visitor.py", "            prev_line = lines[lineno - 2].strip() if lineno >= 2 else \"\"", "            prev_line = lines[lineno - 2].strip() if lineno > 1 else \"\"", "KEEP"),
-        E("C16", "ignore-two-lines-up", "node_visitor.py", "            prev_line = lines[lineno - 2].strip() if lineno >= 2 else \"\"", "            prev_line = lines[lineno - 3].strip() if lineno >= 3 else \"\"", "BREAK", ""),
         E("C17", "star-counted-once", "format_strings.py", "            if specifier.field_width == \"*\":\n                yield StarConversionSpecifier()\n            if specifier.precision == \"*\":\n                yield StarConversionSpecifier()", "            if \"*\" in (specifier.field_width, specifier.precision):\n                yield StarConversionSpecifier()", "BREAK", "W_STAR=1,P_STAR=1"),
         E("C17", "star-after-value", "format_strings.py", "            if specifier.precision == \"*\":\n                yield StarConversionSpecifier()\n            if specifier.conversion_type != \"%\":\n                yield specifier", "            if specifier.conversion_type != \"%\":\n                yield specifier\n            if specifier.precision == \"*\":\n                yield StarConversionSpecifier()", "BREAK", "P_STAR=1"),
         E("C17", "percent-consumes-argument", "format_strings.py", "            if specifier.conversion_type != \"%\":\n                yield specifier\n\n    def accept_tuple_args", "            yield specifier\n\n    def accept_tuple_args", "BREAK", "PERCENT=1"),
@@ -289,6 +283,18 @@ def _cat() -> List[Edit]:
         E("C17", "model-missing-keyword-unreported", "implementation.py", "            if field.arg_name not in kwargs:", "            if False:", "BREAK", "reported-when-cpython-raises::KeyError"),
         E("C17", "model-escape-braces-reported", "format_strings.py", "            if next_char == \"{\":\n                state.next()\n                current_literal.append(\"{\")\n            else:", "            if False:\n                pass\n            else:", "BREAK", "format-model::"),
         E("C17", "keep-model-parser-local-rename", "format_strings.py", "arg_name_chars", "field_name_chars", "KEEPALL"),
+        E("C11", "model-prev-index-wraps-around", "node_visitor.py", "            while prev_index >= 0:\n", "            while prev_index >= -1:\n", "BREAK", "filter-model::"),
+        E("C11", "model-wrong-index-marked-used", "node_visitor.py", "                    self.used_ignores.add(prev_index)\n", "                    self.used_ignores.add(prev_index + 1)\n", "BREAK", "used ignore comments"),
+        E("C11", "model-prev-line-substring", "node_visitor.py", "                    prev_line == ignore_comment\n                    or error_code is not None", "                    ignore_comment in prev_line\n                    or error_code is not None", "BREAK", "filter-model::"),
+        E("C11", "model-stack-walks-over-any-comment", "node_visitor.py", "                if not prev_line.startswith(f\"{ignore_comment}[\"):\n                    break", "                if not prev_line.startswith(\"#\"):\n                    break", "BREAK", "filter-model::reported"),
+        E("C11", "model-file-level-needs-no-leading-position", "node_visitor.py", "            if not line.startswith(\"#\"):\n                return False\n            if (\n                line.strip() == ignore_comment", "            if (\n                line.strip() == ignore_comment", "BREAK", "filter-model::"),
+        E("C11", "keep-model-prev-index-rename", "node_visitor.py", "prev_index", "above_index", "KEEPALL"),
+        E("C16", "model-stacking-removed", "node_visitor.py", "                if not prev_line.startswith(f\"{ignore_comment}[\"):\n                    break\n                prev_index -= 1", "                break", "BREAK", "terminates-with-nothing-reported"),
+        E("C16", "model-first-line-comment-on-own-line", "node_visitor.py", "                if all(line.startswith(\"#\") for line in lines[: lineno - 1]):", "                if False:", "BREAK", "each-comment-suppresses-exactly-one-diagnostic"),
+        E("C16", "model-bare-ignore-inserted", "node_visitor.py", "                if error_code is not None:\n                    ignore = f\"{ignore_comment}[{error_code.name}]\"\n                else:\n                    ignore = ignore_comment\n                if all(", "                ignore = ignore_comment\n                if all(", "BREAK", "add-ignores-model::"),
+        E("C16", "model-original-line-dropped", "node_visitor.py", "                    new_lines = [\"{}{}\\n\".format(\" \" * indentation, ignore), this_line]", "                    new_lines = [\"{}{}\\n\".format(\" \" * indentation, ignore)]", "BREAK", "add-ignores-model::"),
+        E("C16", "model-trailing-ignore-covers-next-line", "node_visitor.py", "                    prev_line == ignore_comment\n                    or error_code is not None\n                    and prev_line == f\"{ignore_comment}[{error_code.name}]\"", "                    ignore_comment in prev_line", "BREAK", "add-ignores-model::"),
+        E("C16", "keep-model-indentation-expression", "node_visitor.py", "                    new_lines = [\"{}{}\\n\".format(\" \" * indentation, ignore), this_line]", "                    new_lines = [\" \" * indentation + ignore + \"\\n\", this_line]", "KEEP"),
         E("C16", "keep-reversed-sorted", "node_visitor.py", "lines_to_remove = sorted(lines_to_remove, reverse=True)", "lines_to_remove = list(reversed(sorted(lines_to_remove)))", "KEEP"),
         E("C17", "keep-regex-class-order", "format_strings.py", "(?P<conversion_type>[diouxXeEfFgGcrs%ba])", "(?P<conversion_type>[abcdeEfFgGiorsuxX%])", "KEEP"),
         E("C18", "keep-sort-key-via-locals", "options.py", "        return (\n            not self.from_command_line,  # command line options first\n            self.priority,  # lower priority number first\n            -len(self.applicable_to),  # longest options first\n        )", "        return (\n            not self.from_command_line,\n            self.priority,\n            -len(self.applicable_to),\n        )", "KEEP"),
